@@ -156,6 +156,9 @@ fn main() {
             let paths = [
                 "shader.wgsl", "../shaders/my shader.wgsl", "C:\\dir\\x.wgsl", "ünï/码.wgsl", "quote\"d.wgsl",
                 "", "a/b/c/d/e/f.wgsl", "tab\tname.wgsl", "{brace}.wgsl", "nl\nname.wgsl",
+                // not in normalised form: the path has to arrive in include_str! as given
+                "shaders/./model.wgsl", "shaders//model.wgsl", "/abs/dir/./shader.wgsl", "dir/", "./x/../y.wgsl", "a\\b/../c.wgsl", " lead.wgsl ",
+                "back\\slash\\", "\u{feff}bom.wgsl", "r#\"raw\"#.wgsl", "dollar$HOME/~.wgsl",
             ];
             for i in 0..count {
                 let c = verif_harness::wgslgen::generate(profile, seed, i);
@@ -177,13 +180,22 @@ fn main() {
                         c /= 3;
                     }
                     // usage: 0 = unused, 1 = first entry, 2 = last entry, 3 = all through a helper, 4 = middle via nested helper
-                    for usage in 0..5usize {
+                    // (value-returning call in a continuing block), 5 = middle via a call STATEMENT (no result) in a continuing
+                    // block, 6 = middle via a call statement in the update clause of a for loop, 7 = call statement inside
+                    // switch / if / nested block of a helper
+                    for usage in 0..8usize {
                         let ty = tys[k % tys.len()];
                         k += 1;
                         let mut s = String::new();
                         s.push_str("struct PC { a: vec3<f32>, b: f32, c: vec2<f32> }\n");
                         s.push_str(&format!("var<push_constant> pc: {ty};\n"));
                         s.push_str("fn leaf() -> f32 { _ = pc; let p = pc; return 1.0; }\nfn mid() -> f32 { var x = 0.0; loop { if x > 1.0 { break; } continuing { x += leaf(); } } return x; }\n");
+                        if usage >= 5 {
+                            s.push_str("fn leafv() { _ = pc; }\n");
+                            s.push_str("fn midv() { var x = 0.0; loop { if x > 1.0 { break; } continuing { x += 1.0; leafv(); } } }\n");
+                            s.push_str("fn midf() { for (var i = 0u; i < 2u; leafv()) { i += 1u; } }\n");
+                            s.push_str("fn mids(k: u32) { switch k { case 1u: { if k > 0u { { leafv(); } } } default: { } } }\n");
+                        }
                         for (i, st) in stages.iter().enumerate() {
                             let uses = match usage {
                                 0 => false,
@@ -192,7 +204,18 @@ fn main() {
                                 3 => true,
                                 _ => i == len / 2,
                             };
-                            let body = if !uses { "" } else if usage == 3 { "let q = leaf();" } else if usage == 4 { "let q = mid();" } else { "let q = pc;" };
+                            let body = if !uses {
+                                ""
+                            } else {
+                                match usage {
+                                    3 => "let q = leaf();",
+                                    4 => "let q = mid();",
+                                    5 => "midv();",
+                                    6 => "midf();",
+                                    7 => "mids(1u);",
+                                    _ => "let q = pc;",
+                                }
+                            };
                             match st {
                                 0 => s.push_str(&format!("@vertex fn e{i}() -> @builtin(position) vec4<f32> {{ {body} return vec4<f32>(0.0); }}\n")),
                                 1 => s.push_str(&format!("@fragment fn e{i}() -> @location(0) vec4<f32> {{ {body} return vec4<f32>(0.0); }}\n")),
